@@ -80,7 +80,7 @@ func genC02SessionInside(ref core.CaseRef, r *rand.Rand) *evCase {
 	for m, n := 0, 2+r.Intn(4); m < n; m++ {
 		k, other := plainKeys[m%3], plainKeys[(m+1)%3]
 		hi := 5*T/10 + int64(r.Intn(int(3*T/10))) // latest event of the session so far, relative to t0
-		in := 1 + int64(r.Intn(int(hi-1)))          // the inner, out-of-order event
+		in := 1 + int64(r.Intn(int(hi-1)))        // the inner, out-of-order event
 		if hi-in > c.MooMs {
 			in = hi - c.MooMs
 		}
